@@ -201,10 +201,10 @@ Proof. intros c ws T s (s' & St & Ch & Le & H). eapply G_pre; eauto. Qed.
 
 (* change of context: the forks fx that lie between the two bases are transparent to errors.  When fx is not
    empty no output in the target context is forkless, so its second tail is arbitrary *)
-Lemma G_ctx : forall cb c fx (Q : list sv -> nat -> gx -> Prop) (T Tw T' Tw' : state -> Prop),
+Lemma G_ctxo : forall cb c fx (Q : list sv -> nat -> gx -> Prop) (T Tw T' Tw' : state -> Prop),
   g_sc cb = g_sc c -> g_pc cb = g_pc c -> g_st cb = g_st c -> g_base cb = fx ++ g_base c ->
   (forall i, g_own cb i -> g_own c i) ->
-  (forall o a b, keepS c o a b -> keepS cb o a b) -> (forall o a b, keepS' c o fx a b -> keepK0 cb a b) ->
+  (forall o a b, g_off cb <= o -> keepS c o a b -> keepS cb o a b) -> (forall o a b, g_off cb <= o -> keepS' c o fx a b -> keepK0 cb a b) ->
   g_n0 c <= g_n0 cb -> g_off c <= g_off cb -> g_ctr c <= g_ctr cb -> Forall (fun f => g_ctr c <= f_ctr f) fx ->
   (forall a b n g n' g', Q a n g -> chg (g_own cb) a b -> cle n g n' g' -> Q b n' g') ->
   (forall o f a b n g n' g', g_off cb <= o -> Q a n g -> keepS' c o (f ++ fx) a b -> cle n g n' g' -> Q b n' g') ->
@@ -229,16 +229,16 @@ Proof.
       destruct fx as [|x0 fx0].
       * split; [reflexivity|]. intros vs2 n2 g2 K L2.
         assert (HQ2 : Q vs2 n2 g2) by (eapply (Q2 o3 []); [exact (proj1 Ho)|exact HQ3|exact K|exact L2]).
-        simpl in Hbase. rewrite <- Hbase. apply Hmapw; [exact HQ2|]. apply R; [|exact L2]. apply (HkeepK o3). exact K.
+        simpl in Hbase. rewrite <- Hbase. apply Hmapw; [exact HQ2|]. apply R; [|exact L2]. apply (HkeepK o3 _ _ (proj1 Ho)). exact K.
       * intros vs2 n2 g2 K L2.
         assert (HQ2 : Q vs2 n2 g2) by (eapply (Q2 o3 []); [exact (proj1 Ho)|exact HQ3|exact K|exact L2]).
         split.
         -- simpl. exists (B None (g_base cb) vs2 n2 g2). split; [apply steps_refl|]. split; [apply chg_refl|]. split; [apply cle_refl|].
-           apply Hmapw; [exact HQ2|]. apply R; [|exact L2]. apply (HkeepK o3). exact K.
+           apply Hmapw; [exact HQ2|]. apply R; [|exact L2]. apply (HkeepK o3 _ _ (proj1 Ho)). exact K.
         -- intros x Hx. rewrite Hbase. apply Htr; auto.
     + simpl app. intros vs2 n2 g2 K L2.
       assert (HQ2 : Q vs2 n2 g2) by (eapply (Q2 o3 (f0 :: fk0)); [exact (proj1 Ho)|exact HQ3|exact K|exact L2]).
-      destruct (R vs2 n2 g2 (Hkeep _ _ _ K) L2) as [R1 R2]. split.
+      destruct (R vs2 n2 g2 (Hkeep _ _ _ (proj1 Ho) K) L2) as [R1 R2]. split.
       * apply (IHws (B None ((f0 :: fk0) ++ g_base cb) vs2 n2 g2)); auto.
       * intros x Hx.
         assert (Hx' : okerr (g_n0 cb) x). { destruct x as [[]|]; simpl in *; auto. lia. }
@@ -248,6 +248,23 @@ Proof.
         destruct (Htr x vs4 n4 g4 HQ4 Hx) as (vs5 & n5 & g5 & St5 & Ch5 & Le5).
         exists vs5, n5, g5. rewrite Hbase. split; [exact (steps_trans _ _ _ _ _ St4 St5)|]. split; [|eapply cle_trans; eauto].
         eapply chg_trans; [eapply chg_mono; eauto|auto].
+Qed.
+Lemma G_ctx : forall cb c fx (Q : list sv -> nat -> gx -> Prop) (T Tw T' Tw' : state -> Prop),
+  g_sc cb = g_sc c -> g_pc cb = g_pc c -> g_st cb = g_st c -> g_base cb = fx ++ g_base c ->
+  (forall i, g_own cb i -> g_own c i) ->
+  (forall o a b, keepS c o a b -> keepS cb o a b) -> (forall o a b, keepS' c o fx a b -> keepK0 cb a b) ->
+  g_n0 c <= g_n0 cb -> g_off c <= g_off cb -> g_ctr c <= g_ctr cb -> Forall (fun f => g_ctr c <= f_ctr f) fx ->
+  (forall a b n g n' g', Q a n g -> chg (g_own cb) a b -> cle n g n' g' -> Q b n' g') ->
+  (forall o f a b n g n' g', g_off cb <= o -> Q a n g -> keepS' c o (f ++ fx) a b -> cle n g n' g' -> Q b n' g') ->
+  (forall x vs n g, Q vs n g -> okerr (g_n0 c) x -> exists vs4 n4 g4,
+      steps (B (Some x) (fx ++ g_base c) vs n g) (B (Some x) (g_base c) vs4 n4 g4) /\ chg (g_own c) vs vs4 /\ cle n g n4 g4) ->
+  (forall s, Q (vars_of s) (lbl_of s) (gx_of s) -> T s -> T' s) ->
+  (forall s, Q (vars_of s) (lbl_of s) (gx_of s) -> Tw s -> match fx with [] => Tw' s | _ => T' s end) ->
+  forall ws s, Q (vars_of s) (lbl_of s) (gx_of s) -> G2 cb ws T Tw s -> G2 c ws T' Tw' s.
+Proof.
+  intros cb c fx Q T Tw T' Tw' Hsc Hpc Hst Hbase Hown Hkeep HkeepK Hn0 Hoff Hctr Hfx Q1 Q2 Htr Hmap Hmapw.
+  apply (G_ctxo cb c fx Q T Tw T' Tw' Hsc Hpc Hst Hbase Hown (fun o a b _ H => Hkeep o a b H) (fun o a b _ H => HkeepK o a b H)
+           Hn0 Hoff Hctr Hfx Q1 Q2 Htr Hmap Hmapw).
 Qed.
 
 Lemma encR_some : forall sc ce vs ex e, encR sc ce vs (Some ex) e -> exists y, e = Some y.
@@ -426,5 +443,149 @@ Proof.
           refine (G_ctx (cbody (f0 :: fk0) o3 (ctr g3)) c (f0 :: fk0) Q _ _ _ _ eq_refl eq_refl eq_refl eq_refl Hob Hks Hk0 (le_n _) Ho1 Hc3 Hfk Q1 Q2 Qtr Hfin Hfin o st0 HQ0 Hb) end.
 Qed.
 End Fold.
+
+(* the same composition with the body contexts as a parameter: the inner generator may live in another scope chain
+   than the one the composition delivers to (a query in tail position of a function: the inner generator runs in
+   the function's frame, the bodies deliver to the function's caller) *)
+Section FoldG.
+Variable lb : nat.
+Variables (c1 c : gctx) (X : Type) (J Jf : X -> list sv -> nat -> gx -> Prop)
+          (fb : X -> jv -> list jv * option exn * X)
+          (cb : list fork -> nat -> nat -> gctx).
+Hypothesis Hbase : g_base c1 = g_base c.
+Hypothesis Henc1 : forall vs fin e, encR (g_sc c1) (g_ce c1) vs fin e -> encR (g_sc c) (g_ce c) vs fin e.
+Hypothesis Hn0 : g_n0 c1 = g_n0 c.
+Hypothesis Hoff : g_off c <= g_off c1.
+Hypothesis Hctr : g_ctr c <= g_ctr c1.
+Hypothesis Hown1 : forall i, g_own c1 i -> g_own c i.
+Hypothesis Cb_sc : forall fk' o t, g_sc (cb fk' o t) = g_sc c.
+Hypothesis Cb_pc : forall fk' o t, g_pc (cb fk' o t) = g_pc c.
+Hypothesis Cb_st : forall fk' o t, g_st (cb fk' o t) = g_st c.
+Hypothesis Cb_base : forall fk' o t, g_base (cb fk' o t) = fk' ++ g_base c.
+Hypothesis Cb_own : forall fk' o t i, g_off c1 <= o -> g_own (cb fk' o t) i -> g_own c i.
+Hypothesis Cb_ks : forall fk' o t o' a b, g_off c1 <= o -> g_off (cb fk' o t) <= o' -> keepS c o' a b -> keepS (cb fk' o t) o' a b.
+Hypothesis Cb_k0 : forall fk' o t o' a b, g_off c1 <= o -> g_off (cb fk' o t) <= o' -> keepS' c o' fk' a b -> keepK0 (cb fk' o t) a b.
+Hypothesis Cb_n0 : forall fk' o t, g_n0 c <= g_n0 (cb fk' o t).
+Hypothesis Cb_off : forall fk' o t, g_off c1 <= o -> g_off c <= g_off (cb fk' o t).
+Hypothesis Cb_ctr : forall fk' o t, g_ctr (cb fk' o t) = t.
+Hypothesis Cb_enc : forall fk' o t vs fin e, encR (g_sc (cb fk' o t)) (g_ce (cb fk' o t)) vs fin e -> encR (g_sc c) (g_ce c) vs fin e.
+Hypothesis Cb_q1 : forall fk' o3 t a b x, g_off c1 <= o3 -> keepS' c1 o3 fk' x a -> chg (g_own (cb fk' o3 t)) a b -> keepS' c1 o3 fk' x b.
+Hypothesis Cb_q2 : forall fk' o3 t o f a b x, g_off c1 <= o3 -> g_off (cb fk' o3 t) <= o ->
+   keepS' c1 o3 fk' x a -> keepS' c o (f ++ fk') a b -> keepS' c1 o3 fk' x b.
+Hypothesis Hkept : forall i, kept (g_sc c) (g_ce c) i -> ~ g_own c1 i.
+Hypothesis J1 : forall g a b n x n' x', J g a n x -> chg (g_own c1) a b -> cle n x n' x' -> J g b n' x'.
+Hypothesis Jf1 : forall g a b n x n' x', Jf g a n x -> chg (g_own c1) a b -> cle n x n' x' -> Jf g b n' x'.
+Hypothesis JJf : forall g a n x, J g a n x -> Jf g a n x.
+Hypothesis Jlbl : forall g a n x fk' o t, J g a n x -> lblOK (g_sc (cb fk' o t)) (g_ce (cb fk' o t)) a (g_n0 c).
+Hypothesis Hbody : forall w g fk' vs n o x os xx g', J g vs n x -> g_off c1 <= o <= length vs -> g_ctr c1 <= ctr x ->
+   Forall (fun f => g_ctr c1 <= f_ctr f) fk' -> fb g w = (os, xx, g') ->
+   G (cb fk' o (ctr x)) os (Tend lb (cb fk' o (ctr x)) xx (wk fk' (J g') (Jf g')))
+     (N (g_sc c1) (g_pc c1) (SV w :: g_st c1) (fk' ++ g_base c) vs n o x).
+
+Lemma G_foldG : forall ws1 g s fin1 os x g',
+  G c1 ws1 (Tend lb c1 fin1 (fun _ _ _ => True)) s -> J g (vars_of s) (lbl_of s) (gx_of s) ->
+  g_ctr c1 <= ctr (gx_of s) ->
+  foldgen X fb ws1 g = (os, x, g') ->
+  G c os (Tend lb c (match x with Some e => Some e | None => fin1 end) (Jf g')) s.
+Proof.
+  induction ws1; intros g s fin1 os x g' HG HJ Hcs HF; simpl in HF.
+  - inversion HF; subst. simpl in HG. destruct HG as (s' & St & Ch & Le & HT).
+    simpl. exists s. split; [constructor|]. split; [apply chg_refl|]. split; [apply cle_refl|].
+    destruct (Tend_inv _ _ _ _ _ HT) as [[-> HFu]|(e & vs & n & gg & St2 & Ch2 & Le2 & HE & _)];
+      [apply Tend_fuel; eapply Tfuel_pre; [exact St|]; eapply Tfuel_mono; [|exact HFu]; lia|]. apply Tend_of.
+    exists e, vs, n, gg. rewrite <- Hbase.
+    assert (C : chg (g_own c1) (vars_of s) vs) by (eapply chg_trans; eauto).
+    assert (L : cle (lbl_of s) (gx_of s) n gg) by (eapply cle_trans; eauto).
+    split; [eapply steps_trans; eauto|]. split; [exact (chg_mono _ _ _ _ Hown1 C)|]. split; [exact L|]. split; [auto|].
+    apply JJf. eapply J1; eauto.
+  - simpl in HG. destruct HG as (fk' & vs3 & n3 & o3 & g3 & St & Ch & Le & [Ho Hfk] & R).
+    assert (HJ3 : J g vs3 n3 g3) by (eapply J1; eauto).
+    rewrite Hbase in St. assert (Ho1 : g_off c <= o3) by lia.
+    assert (Hc31 : g_ctr c1 <= ctr g3) by (destruct Le; lia).
+    assert (Hc3 : g_ctr c <= ctr g3) by lia.
+    assert (Hfkc : Forall (fun f => g_ctr c <= f_ctr f) fk') by (eapply Forall_impl; [|exact Hfk]; simpl; intros; lia).
+    destruct (fb g a) as [[os1 x1] g1] eqn:Efb.
+    pose proof (Hbody a g fk' vs3 n3 o3 g3 os1 x1 g1 HJ3 Ho Hc31 Hfk Efb) as Hb.
+    set (cbb := cb fk' o3 (ctr g3)) in *.
+    set (Q := fun (a : list sv) (n : nat) (gg : gx) => keepS' c1 o3 fk' vs3 a /\ cle n3 g3 n gg).
+    assert (Q1 : forall a b n gg n' gg', Q a n gg -> chg (g_own cbb) a b -> cle n gg n' gg' -> Q b n' gg').
+    { intros p q n gg n' gg' [HK Hn] C Hn'. split; [|eapply cle_trans; eauto]. eapply Cb_q1; [exact (proj1 Ho)|exact HK|exact C]. }
+    assert (Q2 : forall o f a b n gg n' gg', g_off cbb <= o -> Q a n gg -> keepS' c o (f ++ fk') a b -> cle n gg n' gg' -> Q b n' gg').
+    { intros o f p q n gg n' gg' Hoo [HK Hn] HC Hn'. split; [|eapply cle_trans; eauto]. eapply Cb_q2; [exact (proj1 Ho)|exact Hoo|exact HK|exact HC]. }
+    assert (HQ0 : Q vs3 n3 g3) by (split; [destruct fk'; simpl; [apply keepK0_refl|apply keepS_refl]|apply cle_refl]).
+    assert (Hob : forall i, g_own cbb i -> g_own c i) by (intros i; apply Cb_own; exact (proj1 Ho)).
+    assert (Hks : forall o p q, g_off cbb <= o -> keepS c o p q -> keepS cbb o p q) by (intros o p q Hoo H; apply Cb_ks; [exact (proj1 Ho)|exact Hoo|exact H]).
+    assert (Hk0 : forall o p q, g_off cbb <= o -> keepS' c o fk' p q -> keepK0 cbb p q) by (intros o p q Hoo H; eapply Cb_k0; [exact (proj1 Ho)|exact Hoo|exact H]).
+    assert (Hcb3 : g_ctr c <= g_ctr cbb) by (unfold cbb; rewrite Cb_ctr; exact Hc3).
+    assert (Hbb : g_base cbb = fk' ++ g_base c) by apply Cb_base.
+    destruct fk' as [|f0 fk0].
+    + (* the inner generator is over *)
+      destruct R as [E R]. subst ws1. simpl in HF.
+      assert (Hfin : forall s1, Q (vars_of s1) (lbl_of s1) (gx_of s1) ->
+                Tend lb cbb x1 (Jf g1) s1 ->
+                Tend lb c (match x1 with Some e => Some e | None => fin1 end) (Jf g1) s1).
+      { intros s1 HQ1 HT1. destruct (Tend_inv _ _ _ _ _ HT1) as [[-> HFu]|(e & vs4 & n4 & g4 & St4 & Ch4 & Le4 & HE & HJ4)];
+          [apply Tend_fuel; eapply Tfuel_mono; [|exact HFu]; lia|].
+        rewrite Hbb in St4. simpl in St4. apply Cb_enc in HE.
+        destruct x1 as [ex|].
+        - apply Tend_of. exists e, vs4, n4, g4. split; [exact St4|]. split; [exact (chg_mono _ _ _ _ Hob Ch4)|]. split; [exact Le4|]. split; [exact HE|exact HJ4].
+        - simpl in HE. subst e.
+          assert (HQ4 : Q vs4 n4 g4) by (eapply Q1; eauto). destruct HQ4 as [K4 Hn4]. simpl in K4.
+          destruct (Tend_inv _ _ _ _ _ (R vs4 n4 g4 K4 Hn4)) as [[-> HFu]|(e5 & vs5 & n5 & g5 & St5 & Ch5 & Le5 & HE5 & _)];
+            [apply Tend_fuel; eapply Tfuel_pre; [exact St4|]; rewrite Hbase in HFu; eapply Tfuel_mono; [|exact HFu]; lia|].
+          simpl in St5, Ch5. rewrite Hbase in St5. apply Tend_of.
+          exists e5, vs5, n5, g5. split; [eapply steps_trans; eauto|].
+          split; [exact (chg_trans _ _ _ _ (chg_mono _ _ _ _ Hob Ch4) (chg_mono _ _ _ _ Hown1 Ch5))|]. split; [eapply cle_trans; eauto|].
+          split; [apply Henc1; exact HE5|]. eapply Jf1; eauto. }
+      assert (HG1 : G c os1 (Tend lb c (match x1 with Some e => Some e | None => fin1 end) (Jf g1))
+                      (N (g_sc c1) (g_pc c1) (SV a :: g_st c1) ([] ++ g_base c) vs3 n3 o3 g3)).
+      { match type of Hb with G2 _ ?o _ _ ?st0 =>
+          refine (G_ctxo cbb c [] Q _ _ _ _ (Cb_sc _ _ _) (Cb_pc _ _ _) (Cb_st _ _ _) Hbb Hob Hks Hk0 (Cb_n0 _ _ _) (Cb_off _ _ _ (proj1 Ho)) Hcb3 Hfkc Q1 Q2 _ Hfin Hfin o st0 HQ0 Hb) end.
+        intros y vs n gg _ _. exists vs, n, gg. split; [apply steps_refl|]. split; [apply chg_refl|apply cle_refl]. }
+      eapply G_pre; [exact St|exact (chg_mono _ _ _ _ Hown1 Ch)|exact Le|].
+      destruct x1 as [ex|]; inversion HF; subst; [exact HG1|]. rewrite app_nil_r. exact HG1.
+    + assert (Qtr : forall y vs n gg, Q vs n gg -> okerr (g_n0 c) y -> exists vs4 n4 g4,
+               steps (B (Some y) ((f0 :: fk0) ++ g_base c) vs n gg) (B (Some y) (g_base c) vs4 n4 g4) /\
+               chg (g_own c) vs vs4 /\ cle n gg n4 g4).
+      { intros y vs n gg [K Hn] Hy. destruct (R vs n gg K Hn) as [_ R2]. rewrite Hn0 in R2.
+        destruct (R2 y Hy) as (vs4 & n4 & g4 & St4 & Ch4 & Le4). rewrite Hbase in St4.
+        exists vs4, n4, g4. split; [auto|]. split; [exact (chg_mono _ _ _ _ Hown1 Ch4)|auto]. }
+      destruct x1 as [ex|].
+      * inversion HF; subst.
+        eapply G_pre; [exact St|exact (chg_mono _ _ _ _ Hown1 Ch)|exact Le|].
+        assert (Hfin : forall s1, Q (vars_of s1) (lbl_of s1) (gx_of s1) ->
+                  Tend lb cbb (Some ex) (wk (f0 :: fk0) (J g') (Jf g')) s1 -> Tend lb c (Some ex) (Jf g') s1).
+        { intros s1 HQ1 HT1. destruct (Tend_inv _ _ _ _ _ HT1) as [[E HFu]|(e & vs4 & n4 & g4 & St4 & Ch4 & Le4 & HE & HJ4)];
+            [inversion E; subst ex; apply Tend_fuel; eapply Tfuel_mono; [|exact HFu]; lia|].
+          rewrite Hbb in St4. simpl in HJ4.
+          destruct (encR_some _ _ _ _ _ HE) as (y & ->).
+          assert (Hy : okerr (g_n0 c) y) by (eapply encR_okerr; [eapply Jlbl; exact HJ4|exact HE]).
+          apply Cb_enc in HE. apply Tend_of.
+          assert (HQ4 : Q vs4 n4 g4) by (eapply Q1; eauto).
+          destruct HQ4 as [K4 Hn4]. simpl in K4. destruct (R vs4 n4 g4 K4 Hn4) as [_ R2]. rewrite Hn0 in R2.
+          destruct (R2 y Hy) as (vs5 & n5 & g5 & St5 & Ch5 & Le5). rewrite Hbase in St5.
+          exists (Some y), vs5, n5, g5.
+          split; [eapply steps_trans; eauto|].
+          split; [exact (chg_trans _ _ _ _ (chg_mono _ _ _ _ Hob Ch4) (chg_mono _ _ _ _ Hown1 Ch5))|]. split; [eapply cle_trans; eauto|].
+          split; [|apply JJf; eapply J1; eauto].
+          eapply encR_stable; [|exact HE]. intros k Hk. apply Ch5. apply Hkept. exact Hk. }
+        match type of Hb with G2 _ ?o _ _ ?st0 =>
+          refine (G_ctxo cbb c (f0 :: fk0) Q _ _ _ _ (Cb_sc _ _ _) (Cb_pc _ _ _) (Cb_st _ _ _) Hbb Hob Hks Hk0 (Cb_n0 _ _ _) (Cb_off _ _ _ (proj1 Ho)) Hcb3 Hfkc Q1 Q2 Qtr Hfin Hfin o st0 HQ0 Hb) end.
+      * destruct (foldgen X fb ws1 g1) as [[os2 x2] g2] eqn:Efg. inversion HF; subst.
+        eapply G_pre; [exact St|exact (chg_mono _ _ _ _ Hown1 Ch)|exact Le|].
+        apply G_app.
+        assert (Hfin : forall s1, Q (vars_of s1) (lbl_of s1) (gx_of s1) ->
+                  Tend lb cbb None (wk (f0 :: fk0) (J g1) (Jf g1)) s1 ->
+                  G c os2 (Tend lb c (match x with Some e => Some e | None => fin1 end) (Jf g')) s1).
+        { intros s1 HQ1 HT1. destruct (Tend_inv _ _ _ _ _ HT1) as [[E _]|(e & vs4 & n4 & g4 & St4 & Ch4 & Le4 & HE & HJ4)]; [discriminate E|].
+          rewrite Hbb in St4. simpl in HE, HJ4. subst e.
+          assert (HQ4 : Q vs4 n4 g4) by (eapply Q1; eauto).
+          destruct HQ4 as [K4 Hn4]. simpl in K4. destruct (R vs4 n4 g4 K4 Hn4) as [R1 _]. rewrite Hbase in R1.
+          eapply G_pre; [exact St4|exact (chg_mono _ _ _ _ Hob Ch4)|exact Le4|].
+          eapply IHws1; eauto. simpl. destruct Hn4, Le; lia. }
+        match type of Hb with G2 _ ?o _ _ ?st0 =>
+          refine (G_ctxo cbb c (f0 :: fk0) Q _ _ _ _ (Cb_sc _ _ _) (Cb_pc _ _ _) (Cb_st _ _ _) Hbb Hob Hks Hk0 (Cb_n0 _ _ _) (Cb_off _ _ _ (proj1 Ho)) Hcb3 Hfkc Q1 Q2 Qtr Hfin Hfin o st0 HQ0 Hb) end.
+Qed.
+End FoldG.
 
 End Gen.
